@@ -93,6 +93,10 @@ def check_index(c):
     if n == 2:
         # defaults: size=None means the model's own num_visible
         require(torch.equal(state.generate_hilbert_space(), state.generate_hilbert_space(2)) and state.subspace_vector(2).tolist() == [1, 0], "defaults", "size default is not num_visible")
+        # lifecycle: the defaults do not depend on what was enumerated before (another size asked for explicitly, a rotation that enumerates a sub-space)
+        state.generate_hilbert_space(3 if n != 3 else 4)
+        require(state.subspace_vector(2).tolist() == [1, 0] and tuple(state.generate_hilbert_space().shape) == (4, 2), "defaults:after-other-size",
+                "after an explicit generate_hilbert_space(size) the default size of subspace_vector / generate_hilbert_space is no longer num_visible")
         # sizes asked for in DESCENDING order (a larger register first, by this and by another state object), then the smaller ones again
         from qucumber.nn_states import PositiveWaveFunction as _P2
         other_ = _P2(5, 1, gpu=False)
